@@ -153,6 +153,62 @@ def rule_p2(ctx, F):
     ctx.before("P2", "ts_query_cursor_remove_match:release-before-erase", fn, era, rel, "the removed state's capture list is released before the state is erased")
 
 
+def rule_p3(ctx, F):
+    """Document order of the capture stream rests on finished_states being a min-heap: every
+    removal restores heap order in the direction the replacement element needs."""
+    er = ctx.need_fn(F, "finished_state_erase", "P3")
+    if er:
+        repl = [pt for pt, n, l, op in stores(er) if strip(l).get("k") == "un" and "contents" in show(l) and "contents" in show(n["r"])]
+        up = [pt for pt, n in find(er, "finished_state_sift_up(states, index, pool)")]
+        down = [pt for pt, n in find(er, "finished_state_sift_down(states, index, pool)")]
+        if not repl or not up or not down:
+            ctx.bad("P3", "finished_state_erase:both-directions", "finished_state_erase must fill the hole with the last element and then sift it *up or down* (replacement store %d, sift_up %d, sift_down %d): "
+                    "the last element of a min-heap can be smaller than the erased slot's parent" % (len(repl), len(up), len(down)), {"function": "finished_state_erase"})
+        else:
+            ctx.after("P3", "finished_state_erase:sift-after-replace", er, repl, up + down, "after filling the hole the replacement is sifted into place")
+            ctx.gate("P3", er, down, [("sift down only when the replacement does not precede its parent",
+                                      [("index > 0", False), ("finished_state_precedes(&states->contents[index], &states->contents[(index - 1) / 2], pool)", False),
+                                       ("finished_state_precedes(_, _, pool)", False)])], accept_desc="sifting the replacement down")
+            ctx.gate("P3", er, up, [("sift up only when the replacement precedes its parent", "finished_state_precedes(_, _, pool)", True), ("…and has a parent", "index > 0", True)], accept_desc="sifting the replacement up")
+    pop = ctx.need_fn(F, "finished_state_pop", "P3")
+    if pop:
+        repl = [pt for pt, n, l, op in stores(pop) if "contents" in show(l) and "contents" in show(n.get("r") or {})]
+        down = [pt for pt, n in find(pop, "finished_state_sift_down(states, 0, pool)")]
+        ctx.established_at_exit("P3", "finished_state_pop:sift-down-root", pop, down, [("states->size > 0", False)], "after removing the root the new root is sifted down")
+    su = ctx.need_fn(F, "finished_state_sift_up", "P3")
+    if su:
+        sw = [pt for pt, n in find(su, "finished_state_swap(states, index, _)")]
+        ctx.gate("P3", su, sw, [("swap with the parent only when the element precedes it", "finished_state_precedes(_, _, pool)", True)], accept_desc="swapping with the parent")
+        par = su.ids_named("parent")
+        d = su.single_def(par[0]) if par else None
+        if d is not None and M(su).match("(index - 1) / 2", d):
+            ctx.ok("P3", "finished_state_sift_up:parent-index", "parent is (index - 1) / 2")
+        else:
+            ctx.bad("P3", "finished_state_sift_up:parent-index", "sift_up no longer compares with (index - 1) / 2")
+        ctx.established_at_exit("P3", "finished_state_sift_up:until-ordered", su, [], [("index > 0", False), ("finished_state_precedes(_, _, pool)", False)], "sift_up stops only at the root or below a preceding parent")
+    sd = ctx.need_fn(F, "finished_state_sift_down", "P3")
+    if sd:
+        sw = [pt for pt, n in find(sd, "finished_state_swap(states, index, smallest)")]
+        ctx.gate("P3", sd, sw, [("swap only with a smaller child", "smallest == index", False)], accept_desc="swapping with a child")
+        ctx.established_at_exit("P3", "finished_state_sift_down:until-ordered", sd, [], [("smallest == index", True)], "sift_down stops only when neither child precedes")
+        cmp = find(sd, "finished_state_precedes(...)")
+        ctx.floor("child comparisons in sift_down", len(cmp), 2)
+    # the heap is consulted only after new finished states were sifted in, and a changed sort key re-sifts
+    nc = ctx.need_fn(F, "ts_query_cursor_next_capture", "P3")
+    if nc:
+        reads = [pt for pt, n in find(nc, "&(&self->finished_states)->contents[0]")] or [pt for pt, e in nc.points() if e.get("k") == "decl" and e["name"] == nc.cur("state") and "finished_states" in show(e.get("init") or {})]
+        heapify = [pt for pt, n in find(nc, "ts_query_cursor__heapify_finished_states(self)")]
+        ctx.before("P3", "next_capture:heapify-before-root", nc, reads, heapify, "the heap root is read only after newly finished states were sifted in")
+        bump = [pt for pt, n, l, op in stores(nc) if op == "++" and "consumed_capture_count" in show(l)]
+        resift = [pt for pt, n in find(nc, "finished_state_sift_down(&self->finished_states, 0, &self->capture_list_pool)")]
+        ctx.floor("consumed_capture_count increments in next_capture", len(bump), 2)
+        ctx.floor("re-sift calls in next_capture", len(resift), 2)
+    rm = ctx.need_fn(F, "ts_query_cursor_remove_match", "P3")
+    if rm:
+        raw = [pt for pt, c in rm.calls() if c.get("fn") == "_array__erase" and "finished_states" in show(c["a"][0])]
+        ctx.gate("P3", rm, raw, [("a plain array erase is used on finished_states only while no heap order exists", "self->finished_states_heap_size > 0", False)], accept_desc="array_erase on finished_states")
+
+
 def run(ctx):
     for cfg in configs(ctx):
         ctx.config = cfg
@@ -161,6 +217,7 @@ def run(ctx):
         rule_p1(ctx, F)
         rule_f1(ctx, F)
         rule_p2(ctx, F)
+        rule_p3(ctx, F)
     return ctx.finish(
         "Pairing and field-coverage rules over query.c: every discard of a query state under capture-list-pool exhaustion is preceded by "
         "did_exceed_match_limit = true; ts_query_cursor_exec re-initialises each per-execution field of TSQueryCursor on every path; "
